@@ -162,7 +162,7 @@ pub fn run(a: &Args) -> i32 {
                     rep.fail("deny-module-does-not-compile", json!({"errors": build.failed.get(id), "schema": stext, "query": qtext}));
                     continue;
                 }
-                let pg = PayloadGen { s: schema, doc, deny_deprecated: true, max_list: 2, depth_budget: 4 };
+                let pg = PayloadGen { s: schema, doc, deny_deprecated: true, max_list: 2, depth_budget: 4, absent_percent: 0 };
                 for _ in 0..6 {
                     let mut st = PayloadStats::default();
                     let p = pg.response(&mut rng, &doc.ops[0], &mut st);
